@@ -77,7 +77,7 @@ PROPS = {
     "C18": dict(functions=[G + "ode2py", G + "ode2c", G + "convert", G + "gotran2py.main", G + "gotran2c.main",
                            G + "gotran2py.get_code", G + "gotran2c.get_code", U + "add_schemes", U + "validate_scheme"], lemmas=[]),
     "C19": dict(functions=[B + "is_reserved_name", "gotranx.codegen.jax.JaxCodeGenerator.is_reserved_name", B + "_check_reserved_names",
-                           B + "__init__", B + "_shape_info#names", TP + "method", TJ + "method", TC + "method", "gotranx.codegen.c.bool_to_int"] + ARGS, lemmas=L.C19L),
+                           B + "__init__", B + "_shape_info#names", TP + "method", TJ + "method", TC + "method", "gotranx.codegen.c.bool_to_int"] + ARGS + SCHEMES, lemmas=L.C19L),
     "C20": dict(functions=[T + "states_matrix", T + "rhs_matrix", T + "jacobi_matrix", O + "sorted_states",
                            O + "sorted_state_derivatives"], lemmas=L.L1),
 }
